@@ -117,6 +117,7 @@ class FnTranslator:
         self.rng_param = None
         self.rng_used = 0
         self.rng_prim = None
+        self.rng_args = []
         self.choice = None
         self.n_leaves = 0
         self.leaf_paths = []
@@ -343,6 +344,7 @@ class FnTranslator:
                 if self.rng_used > 1:
                     raise Unsupported("%s: more than one deviate drawn" % self.where(n))
                 self.rng_prim = fn
+                self.rng_args = [self.expr(x) for x in args[1:]]     # e.g. the shape passed to esl_rnd_Gamma
                 return "u"
             if fn in self.known:
                 if fn in self.partial_fns:
@@ -748,6 +750,16 @@ class FnTranslator:
                 self.name, self.name, " ".join("u" if self.vkind[p] == "rng" else self.ident(p) for p in params), "\n".join(tl))
             self.has_leaf_twin = True
             self.n_leaves = n
+        self.has_draw = False
+        if self.rng_args and all(kd in ("d", "rng") for kd in kinds) and not self.partial and not self.helpers \
+                and all(re.fullmatch(r"[\w.()/*+\- ]+", e) and not (set(re.findall(r"[A-Za-z_]\w*", e)) - set(self.ident(p) for p in params if self.vkind[p] == "d") - {"Num"})
+                        for e in self.rng_args):
+            # the arguments handed to the primitive draw (functions of the parameters only)
+            twin += "/-- the arguments `%s` passes to `%s(r, …)` -/\ndef %s_draw (%s : α) : List α :=\n  [%s]\n\n" % (
+                self.name, self.rng_prim, self.name, " ".join(self.ident(p) for p in params if self.vkind[p] == "d"), ", ".join(self.rng_args))
+            self.has_draw = True
+        elif self.rng_args:
+            raise Unsupported("%s: arguments of %s are not expressions of the parameters: %s" % (self.where(), self.rng_prim, self.rng_args))
         lines = [ln[:-len(LEAF_MARK)] if ln.endswith(LEAF_MARK) else ln for ln in lines]
         helpers = [h.replace(LEAF_MARK, "") for h in self.helpers]
         return "".join(h + "\n" for h in helpers) + head + "\n" + "\n".join(lines) + "\n" + ("\n" + twin if twin else ""), kinds
@@ -807,6 +819,8 @@ def translate_all(src_dir, plan):
             if t.has_leaf_twin:
                 info["leaves"][nm] = t.n_leaves
                 info.setdefault("leaf_paths", {})[nm] = list(t.leaf_paths)
+            if t.has_draw:
+                info.setdefault("draw_args", {})[nm] = list(t.rng_args)
             if t.rng_prim or t.choice:
                 info["rng_prim"][nm] = [x for x in (("esl_rnd_DChoose" if t.choice else None), t.rng_prim) if x]
     info["literals"] = sorted(info["literals"])
@@ -829,6 +843,13 @@ def translate_all(src_dir, plan):
         if nm in info["leaves"]:
             xs = ["x%d" % i for i in range(len(known[nm]))]
             disp.append('  | "%s", [%s] => some (%s_leaf %s)' % (nm, ", ".join(xs), nm, " ".join(xs)))
+    disp.append("  | _, _ => none")
+    disp += ["", "/-- name → the arguments the sampler passes to its primitive draw -/",
+             "def dispatchDraw (name : String) (a : List α) : Option (List α) :=", "  match name, a with"]
+    for nm in info["functions"]:
+        if nm in info.get("draw_args", {}):
+            xs = ["x%d" % i for i in range(len(known[nm]) - 1)]
+            disp.append('  | "%s", [%s] => some (%s_draw %s)' % (nm, ", ".join(xs), nm, " ".join(xs)))
     disp.append("  | _, _ => none")
     if partial_fns or any(not scalar(nm) for nm in info["functions"]):
         disp += ["", "/-- name → translated loop-containing function (`some none` = fuel exhausted) and the generic-API wrappers",
